@@ -72,7 +72,7 @@ func (p *Prog) firstEmissionValue(fn *ssa.Function, depth int) (ssa.Value, bool)
 		if e.offset != ssa.Value(off) {
 			continue
 		}
-		if sc := e.call.Call.StaticCallee(); sc != nil && sc.Signature.Recv() == nil && sc.Parent() == nil && fillBufIndex(sc) > 0 {
+		if sc := e.call.Call.StaticCallee(); sc != nil && sc.Signature.Recv() == nil && sc.Parent() == nil && fillBufIndex(sc) >= 0 {
 			hv, ok := p.firstEmissionValue(sc, depth+1)
 			if !ok {
 				return nil, false
